@@ -284,4 +284,33 @@ theorem stmt_vs_inline (cfg : Cfg) (bd : Bool) (inh : Str) (pre mid post : List 
       rw [applyAttr_plain cfg _ _ k hk, hdrOf_snoc_plain cfg inh as k hk]
       rfl
 
+/-- a key without parenthesis is the old key -/
+theorem attrKey_plain (it : Str) (h : (lower (strip it)).contains '(' = false) : attrKey it = lower (strip it) := by
+  unfold attrKey
+  simp only [h]
+  rfl
+
+/-- blanks are the only thing `_attr_key` removes: a parenthesis in the old key is still in the new one -/
+theorem attrKey_keeps_paren (it : Str) (h : (lower (strip it)).contains '(' = true) : (attrKey it).contains '(' = true := by
+  unfold attrKey
+  simp only [h, if_true]
+  simp only [List.contains_iff_mem, List.mem_filter] at h ⊢
+  exact ⟨h, by decide⟩
+
+/-- for a name without parenthesis - every variable name - the repaired key selects exactly the items the old key
+    selected: the attribute model (`contrib`, which compares `lower (strip it)` with the variable's name) is unchanged
+    by repair cbe48be -/
+theorem attrKey_same_items (it n : Str) (hn : n.contains '(' = false) :
+    (attrKey it = n ↔ lower (strip it) = n) := by
+  cases h : (lower (strip it)).contains '('
+  · rw [attrKey_plain it h]
+  · constructor
+    · intro e
+      have := attrKey_keeps_paren it h
+      rw [e, hn] at this
+      cases this
+    · intro e
+      rw [e, hn] at h
+      cases h
+
 end Ford.Attribs
